@@ -247,7 +247,7 @@ impl Prop for C04 {
                     for round in 0..4 {
                         let on = round % 2 == 1;
                         let spec = CfgSpec::new(lay, if on { O_NUMPAD } else { 0 });
-                        if sess.update(spec).is_err() {
+                        if sess.update_with(spec, [0u8, 3, 1, 4, 2][round % 5]).is_err() {
                             break;
                         }
                         let got = sess.key(k.code, 0, 0).map(|s| shown(&s, false).unwrap_or_default());
